@@ -6,7 +6,7 @@ and < min after t+1). The rules decide that the code *is* that transition system
 from ..engine import site_of
 from ..facts import op_place, op_local, op_const, AnchorError
 from ..callgraph import callee_is
-from ..mirutil import (root_place, op_root, deep_root, origin, defuse, calls_in, loops_of, iter_source, place_is_field,
+from ..mirutil import (internal_sweeps, root_place, op_root, deep_root, origin, defuse, calls_in, loops_of, iter_source, place_is_field,
                        success_edges, result_return_sites, dominated_by_ok)
 from ..effects import summarise, term_str, ret_kind, Unsupported
 from .. import anchors as A
@@ -162,6 +162,10 @@ def r3_tick_reaches_every_slot(cx):
                 oc = success_edges(ces, nb)
                 every = all(nb not in ces.cfg.reachable_from_edge(e, avoid_blocks=calls) for e in oc.ok_edges) and bool(oc.ok_edges)
             ok = not li.other_exits and bool(calls) and every
+    if not ok:
+        # internal iteration: self.keys.iter_mut().for_each(CryptoKey::update_min_nonce), reached on every path
+        fe = internal_sweeps(prog, ces, lambda r: place_is_field(r, "CryptoCore", "keys"), upd.did)
+        ok = bool(fe) and not any(x in ces.cfg.exits for x in ces.cfg.reachable_from([0], avoid_blocks=fe))
     cx.check("core-sweeps-all-slots", ok, site_of(ces), "CryptoCore::every_second applies the tick to every key slot (complete sweep, no early exit)")
     pes = A.method(prog, "PeerCrypto", "every_second")
     cx.touch(pes)
@@ -172,7 +176,8 @@ def r3_tick_reaches_every_slot(cx):
         some = set()
         from ..decision import enum_switch_edges
         for (edge, place, ty, val, is_oth) in enum_switch_edges(pes):
-            if not is_oth and val == 1 and place_is_field(root_place(pes, place), "PeerCrypto", "core"):
+            if not is_oth and val == 1 and (place_is_field(root_place(pes, place), "PeerCrypto", "core") or
+                                            (lambda r: r is not None and place_is_field(r, "PeerCrypto", "core"))(deep_root(pes, place))):
                 some.add(edge)
         ok1 = bool(some) and any(pes.cfg.dominates(e, ci) for e in some)
         # every return is reached only after the switch on core (i.e. no early return before the tick)
